@@ -18,7 +18,10 @@ RULE = ("histories of 5-60 (quick) / 5-400 (thorough) log / add_destinations / r
         "(failures are C08's); non-trivial = the history crosses the first add with a non-empty buffer and registers or removes a "
         "destination later; the concurrent hand-over clause is exercised by the scheduled runs (see `handover`)")
 TRUSTED = ["destinations are healthy in the oracle runs (failure isolation is C08)"]
-ASSUMPTIONS = ["a destination is registered at most once at a time (remove() removes the first occurrence)"]
+ASSUMPTIONS = ["a destination is registered at most once at a time (remove() removes the first occurrence)",
+               "schedules are quantified over the first add_destinations only: remove_destination / later add_destinations racing with a "
+               "sender on another thread are outside the property (DESIGN.md section 8; e.g. remove() of a destination that is followed by "
+               "others makes a concurrent sender skip the next one)"]
 EXPLANATION = "buffer-phase relation and fan-out relation proved on basic steps and lifted to all programs; first-add hand-over as a fold of send"
 
 
